@@ -140,10 +140,41 @@ func (fragWorld) Gen(seed uint64, tier string) core.Scenario {
 	} else {
 		s.Src = genFileSrc(r, tier)
 	}
+	// a payload larger than any block a reader may copy in (4 KiB and above, lengths on both
+	// sides of the multiples): such a file is too long to be read once per byte offset, so it
+	// gets one-byte reads, scattered single splits and random partitions instead (wave 6)
+	bigPayload := false
+	if s.Src != nil && s.Src.Foreign != nil && r.Chance(1, 10) {
+		for ci := range s.Src.Foreign.Chunks {
+			c := &s.Src.Foreign.Chunks[ci]
+			if c.AlienType != "" {
+				continue
+			}
+			l := r.PickInt(4097, 4100, 5000, 6144, 8191, 8193, 10000, 12289)
+			ev := ref.FEvent{Event: ref.Event{Kind: ref.Meta, Status: 0xFF, MetaType: 0x01, Data: r.Bytes(l)}}
+			if r.Bool() {
+				ev = ref.FEvent{Event: ref.Event{Kind: ref.Sysex, Status: 0xF0, Data: append(r.Data7(l-1), 0xF7)}}
+			}
+			c.Events = append([]ref.FEvent{ev}, c.Events...)
+			bigPayload = true
+			s.Enumerate = false
+			break
+		}
+	}
 	n := len(s.bytes().data)
 	if n > 0 && r.Chance(1, 3) {
 		s.Cut = r.Intn(n)
 		n = s.Cut
+	}
+	if bigPayload && n > 0 {
+		ones := make([]int, n)
+		for i := range ones {
+			ones[i] = 1
+		}
+		s.Partitions = append(s.Partitions, ones)
+		for i := 0; i < 24 && n > 1; i++ {
+			s.Partitions = append(s.Partitions, []int{r.Range(1, n-1)})
+		}
 	}
 	for i := 0; i < 6 && n > 0; i++ {
 		s.Partitions = append(s.Partitions, r.Partition(n, 2+r.Intn(2)))
@@ -296,6 +327,7 @@ func (s *FragRead) Run(env *core.Env, st *core.Stats) (vs []core.Violation) {
 		return nil // the writer's defect is C01/C03's business
 	}
 	st.ProbeIf(len(s.Raw) > 0, "corrupted-file-as-source")
+	st.ProbeIf(!s.Enumerate && s.Only == nil && len(s.Partitions) > 6, "payload-above-4096-under-one-byte-reads-and-scattered-splits")
 	data := sf.data
 	if s.Cut >= 0 && s.Cut < len(data) {
 		data = data[:s.Cut]
